@@ -1,3 +1,6 @@
+# Unit `decrypt` (C06 key plumbing, C14 key-size selection): Decoder::{default, from_password, new, key, decrypt} of
+# pdf/src/crypt.rs. See NOTES.md. Verifies completely on /repo + findings/*_fix.diff (four small patches); on the pinned
+# tree it fails at exactly the obligations listed in NOTES.md "Findings".
 F = 'pdf/src/crypt.rs'
 O = 'pdf/src/object/mod.rs'
 IMPL = r'^impl Decoder$'
@@ -11,7 +14,8 @@ HOISTS = [
 
 UNIT = {
  'name': 'decrypt',
- 'doc': 'Decoder::{key, decrypt} against ISO 32000 Algorithm 1 / 1.A (MD5, RC4, AES-CBC uninterpreted)',
+ 'doc': 'Decoder::{key, decrypt} against ISO 32000 Algorithm 1 / 1.A; Decoder::{from_password, default} key-size selection and '
+        'login plumbing against Table 20/21, Algorithms 6, 7, 2.A (MD5, SHA-2, RC4, AES uninterpreted)',
  'items': {
   'type ObjNr': {'kind': 'decl', 'file': O, 'header': r'^pub type ObjNr\b'},
   'type GenNr': {'kind': 'decl', 'file': O, 'header': r'^pub type GenNr\b'},
@@ -90,8 +94,15 @@ UNIT = {
         {'rule': 'R7', 'regex': r'key_slice\.into\(\)', 'replace': 'hoist_vec_from_slice(key_slice)', 'count': 1},
      ]},
 
+  'Decoder::default': {'kind': 'fn', 'file': F, 'container': IMPL, 'name': 'default', 'props': ['C06', 'C14'],
+     'ensures': [('default_is_empty_password', 'post_key_size_selection(*dict, r) && post_rc4_login(*dict, id@, Seq::<u8>::empty(), r) '
+                                               '&& post_aes_login(*dict, Seq::<u8>::empty(), r)'),
+                 ('decoder_wf', 'r matches Ok(d) ==> d.wf()')],
+     'rewrites': [{'rule': 'R1', 'find': 'Decoder::from_password(', 'replace': 'proof { lemma_empty_literal(); } Decoder::from_password('},
+                  {'rule': 'R7', 'regex': r'b("[^"]*")', 'replace': r'hoist_bstr(\1)', 'count': 1}]},
+
   'Decoder::key': {'kind': 'fn', 'file': F, 'container': IMPL, 'name': 'key', 'props': ['C06'],
-     # wf: established by from_password's RC4 path (key = vec![0; key_size.max(16)]); see NOTES.md for the R5/R6 path
+     # wf: the only constructor call in /repo is from_password, whose obligation `decoder_wf` establishes it
      'requires': ['self.wf()'],
      'ensures': [('key_is_file_key', 'self.key_size <= 16 ==> r@ == self.file_key()'),
                  ('key_clamped', 'self.key_size > 16 ==> r@ == self.key@.subrange(0, 16)')],
